@@ -785,6 +785,16 @@ func parseTags(text string, basePos Position) []ast.Tag {
 	var tags []ast.Tag
 	parts := strings.Split(text, ",")
 	searchStart := 0
+	// UTF-16 length of text[:measured], advanced tag by tag
+	measured, measuredUnits := 0, 0
+	unitsUpTo := func(offset int) int {
+		if offset < measured {
+			measured, measuredUnits = 0, 0
+		}
+		measuredUnits += utf16Len(text[measured:offset])
+		measured = offset
+		return measuredUnits
+	}
 
 	for _, part := range parts {
 		trimmed := strings.TrimSpace(part)
@@ -818,8 +828,8 @@ func parseTags(text string, basePos Position) []ast.Tag {
 		}
 
 		// columns count UTF-16 code units; tagStart and tagEnd are byte offsets
-		startCol := basePos.Column + 1 + utf16Len(text[:tagStart])
-		endCol := basePos.Column + 1 + utf16Len(text[:tagEnd])
+		startCol := basePos.Column + 1 + unitsUpTo(tagStart)
+		endCol := basePos.Column + 1 + unitsUpTo(tagEnd)
 
 		tags = append(tags, ast.Tag{
 			Name:  name,
